@@ -16,6 +16,7 @@ from mc.oracle import coxeter_words as cw
 ALPHA = "abcdefghijklmnopqrstuvwxyz"
 IMG_TOL = 1e-6
 MAXMSG = 3
+EVEN_LIMIT = 150000
 
 
 def gen_names(n, style):
@@ -110,6 +111,30 @@ def path_counts(fsa_obj, L):
         if not cur:
             break
     return out
+
+
+def even_cost(A, limit):
+    """Upper estimate of the number of queue pops FSA.automaton_multiple(2) performs on A: it marks a
+    state visited when it is popped, not when it is queued, so a state is queued once per two-letter
+    path that reaches it before its first pop, i.e. about once per accepted word of its breadth-first
+    depth.  Used only to decide whether building the even-length variant is affordable."""
+    gd = A.graph_dict
+    cur = {}
+    for s in A.start_vertices:
+        cur[s] = 1
+    visited = set()
+    pops = 0
+    while cur and pops <= limit:
+        pops += sum(cur.values())
+        visited |= set(cur)
+        nxt = {}
+        for v, c in cur.items():
+            for _, w1 in gd[v].items():
+                for _, w2 in gd[w1].items():
+                    if w2 not in visited:
+                        nxt[w2] = nxt.get(w2, 0) + c
+        cur = nxt
+    return pops
 
 
 def min_pairwise_distance_below(mats, tol):
@@ -284,7 +309,11 @@ def case_matrix(case):
                 V.add("HARNESS-oracle/steinberg", "braid %r vs Steinberg %r" % (growth, steinberg[:len(growth)]))
 
     # ---------------- even-length variants ------------------------------------------------
+    skipped = ""
     for which, shortlex, lang in (("even-geodesic", False, reduced_words[0]), ("even-shortlex", True, reduced_words[1])):
+        if even_cost(slx if shortlex else geo, EVEN_LIMIT) > EVEN_LIMIT:
+            skipped += "|no-" + which        # see even_cost: construction cost ~ number of reduced words
+            continue
         E = G.automaton(shortlex=shortlex, even_length=True)
         t += 1
         kmax = Le // 2
@@ -329,7 +358,7 @@ def case_matrix(case):
         V.add("images/collision", "shortlex words %r and %r have canonical-representation images within %g"
               % (nf_words[hit[0]], nf_words[hit[1]], IMG_TOL))
 
-    o = "%s|%s|%s" % (",".join(map(str, growth[:10])), "fin" if spherical else "inf", "X" if exhausted else "")
+    o = "%s|%s|%s%s" % (",".join(map(str, growth[:10])), "fin" if spherical else "inf", "X" if exhausted else "", skipped)
     return {"v": V.out(), "t": nclassified, "o": o, "nt": hard > 0}
 
 
@@ -397,8 +426,17 @@ def rank5_family():
         yield cw.permute(cw.star_matrix(list(ls), centre=0), perm)
 
 
+def _wanted(ctx, name):
+    only = getattr(ctx, "only", None)
+    return not only or any(name.startswith(p) for p in only)
+
+
 def run(ctx):
     q = ctx.quick
+
+    def P(name, fn, cases, **kw):
+        if _wanted(ctx, name):
+            ctx.product(name, fn, cases, **kw)
     ctx.rule = ("one case = one Coxeter matrix (ordered: no quotient by relabelling) with one way of writing "
                 "infinity, one constructor route and one naming style; inside, all words of length <= L are "
                 "decided: breadth-first over the oracle-reduced words, every one-letter extension of a reduced "
@@ -424,7 +462,7 @@ def run(ctx):
                                        sym_matrix(3, [0, 0, 0]), sym_matrix(3, [2, 3, 7]), sym_matrix(3, [4, 4, 2]),
                                        sym_matrix(3, [2, 4, 5]), sym_matrix(3, [7, 7, 7]),
                                        sym_matrix(4, [4, 2, 2, 3, 2, 4]), sym_matrix(4, [3, 2, 2, 3, 2, 5]))]
-    ctx.product("oracle-selfcheck", "checks.c07:case_oracle", oc,
+    P("oracle-selfcheck", "checks.c07:case_oracle", oc,
                 domains={"finite groups with known degrees": len(oc) - 10, "infinite groups vs Steinberg": 10}, chunk=1)
     # ---- rank 2
     labels2 = [2, 3, 4, 5, 6, 7, 0] if q else list(range(2, 13)) + [0]
@@ -434,7 +472,7 @@ def run(ctx):
             for style in ("alpha", "alphanum"):
                 for route in ("matrix", "diagram"):
                     cases.append({"m": mm, "L": 9 if q else 12, "style": style, "route": route, "Lg": 30})
-    ctx.product("rank2", "checks.c07:case_matrix", cases,
+    P("rank2", "checks.c07:case_matrix", cases,
                 domains={"labels": labels2, "infinity written as": ["0", "-1"], "style": ["alpha", "alphanum"],
                          "route": ["matrix", "diagram"], "L": 9 if q else 12}, chunk=2)
     # ---- rank 3: all 343 ordered matrices
@@ -443,7 +481,7 @@ def run(ctx):
     for m in all_matrices(3, labels3):
         for enc, mm in encodings(m):
             cases.append({"m": mm, "L": L3, "style": "alpha", "route": "matrix", "Lg": 24})
-    ctx.product("rank3-all-343", "checks.c07:case_matrix", cases,
+    P("rank3-all-343", "checks.c07:case_matrix", cases,
                 domains={"labels": labels3, "ordered matrices": 343, "infinity written as": ["0", "-1", "mixed 0/-3"],
                          "L": L3, "finite groups": "exhausted"}, chunk=2)
     # ---- rank 3, other routes / names (labels {2,3,4,5,inf} quick; all in thorough)
@@ -456,7 +494,7 @@ def run(ctx):
         cases.append({"m": mm, "L": L3 - 1, "style": "alpha", "route": "diagram", "Lg": 12,
                       "pairs": [[1, 2], [0, 2], [0, 1]]})
         cases.append({"m": mm, "L": L3 - 1, "style": "alphanum", "route": "diagram", "Lg": 12})
-    ctx.product("rank3-routes", "checks.c07:case_matrix", cases,
+    P("rank3-routes", "checks.c07:case_matrix", cases,
                 domains={"labels": sub, "routes": ["matrix/alphanum", "diagram/alpha listed (1,2),(0,2),(0,1)",
                                                    "diagram/alphanum"], "L": L3 - 1}, chunk=2)
     # ---- rank 4
@@ -468,7 +506,7 @@ def run(ctx):
         k = (sum(map(sum, m)) % 2) if len(enc) > 1 else 0     # alternate 0 / -1 deterministically
         cases.append({"m": enc[k][1], "L": L4, "style": "alpha", "route": "matrix", "Lg": 12, "Lmat": 5,
                       "cap": 3000 if q else 12000, "Limg": L4})
-    ctx.product("rank4", "checks.c07:case_matrix", cases,
+    P("rank4", "checks.c07:case_matrix", cases,
                 domains={"labels": labels4, "ordered matrices": len(cases), "L": L4,
                          "finite groups": "exhausted when they have <= %d reduced words" % (3000 if q else 12000)},
                 chunk=4 if q else 16)
@@ -480,6 +518,6 @@ def run(ctx):
             mm = enc[(i % 2) if len(enc) > 1 else 0][1]
             cases.append({"m": mm, "L": 7, "style": "alpha", "route": "matrix", "Lg": 12, "Lmat": 5,
                           "cap": 12000, "Limg": 6})
-        ctx.product("rank5-paths-stars", "checks.c07:case_matrix", cases,
+        P("rank5-paths-stars", "checks.c07:case_matrix", cases,
                     domains={"shapes": ["path 0-1-2-3-4", "path scrambled order", "star centre 0", "star centre 2",
                                         "star scrambled order"], "edge labels": [3, 4, "inf"], "L": 7}, chunk=2)
